@@ -95,7 +95,7 @@ const TYPE: &str = "c13_type";
 
 fn world() -> &'static Mutex<World> {
   WORLD.get_or_init(|| {
-    let dp = DomainParticipant::new(113).expect("participant");
+    let dp = util::participant(93);
     let qos = QosPolicyBuilder::new()
       .reliability(policy::Reliability::Reliable { max_blocking_time: Duration::from_secs(100_000) })
       .history(policy::History::KeepAll)
